@@ -117,7 +117,11 @@ pub fn explore<S: Sut>(ctx: &Ctx, name: &str, inits: Vec<S>, opts: BfsOpts) {
         }
     };
     for (i, s) in inits.iter().enumerate() {
-        if let Err(e) = s.check() {
+        let chk = match catch(|| s.check()) {
+            Ok(r) => r,
+            Err(p) => Err(format!("unexpected panic: {}", p)),
+        };
+        if let Err(e) = chk {
             viol_total += 1;
             viols.push(Viol { space: name.to_string(), idx: 0, key: format!("init#{}", i), detail: e, extra: json!({"init": i, "path": []}) });
             continue;
@@ -287,7 +291,7 @@ impl<S: Sut + 'static> Model for SrModel<S> {
     type State = SrState<S>;
     type Action = SrAct;
     fn init_states(&self) -> Vec<Self::State> {
-        self.inits.iter().map(|s| SrState { s: s.clone(), bad: s.check().err() }).collect()
+        self.inits.iter().map(|s| SrState { s: s.clone(), bad: catch(|| s.check()).unwrap_or_else(|p| Err(p)).err() }).collect()
     }
     fn actions(&self, st: &Self::State, out: &mut Vec<Self::Action>) {
         if st.bad.is_some() {
